@@ -143,7 +143,7 @@ halve!(c07_halve_2, 2);
 //@ name=c07_halve_3 prop=C07,C08,C11 tier=quick profile=k64 funcs="modular::div_by_2" bound="Uint<3>: every odd p, every a < p" free_bits=384
 halve!(c07_halve_3, 3);
 
-//@ prop=C07,C11,C15 tier=quick profile=k64 funcs="BoxedUint::add_mod,BoxedUint::add_mod_assign,BoxedUint::sub_mod,BoxedUint::neg_mod,BoxedUint::double_mod,BoxedUint::sub_mod_special,BoxedUint::neg_mod_special,modular::div_by_2_boxed" bound="BoxedUint 2 limbs: every p and every a,b < p (p odd for the halving); results equal the fixed-width Uint<2> results limb for limb" free_bits=384
+//@ prop=C07,C11,C15 tier=quick profile=k64 funcs="BoxedUint::add_mod,BoxedUint::add_mod_assign,BoxedUint::sub_mod,BoxedUint::neg_mod,BoxedUint::double_mod,BoxedUint::sub_mod_special,BoxedUint::neg_mod_special,modular::div_by_2_boxed" bound="BoxedUint 2 limbs: every p and every a,b < p (p odd for the halving); results equal the fixed-width Uint<2> results limb for limb" free_bits=384 core=C15
 #[kani::proof]
 #[kani::unwind(8)]
 fn c07_boxed_mod_linear_2() {
